@@ -180,6 +180,9 @@ pub fn base_plan(property: &str, profile: &str, seed: u64) -> (Plan, Swarm) {
     let sched = swarm_sched(&mut rng, false);
     let n_keys = rng.range(2, 9) as u8;
     let n_metas = rng.range(0, 3) as u8;
+    // one run in sixteen of those with three meta values gets a fourth: a single attribute of 70 000 bytes
+    // (decided from the seed, not from the stream, so that every other run keeps its history)
+    let n_metas = if n_metas == 3 && crate::rng::mix_all(&[seed, 0x0b16_e7a0]) % 16 == 0 { 4 } else { n_metas };
     let ts_max = *rng.pick(&[3u64, 5, 8, 20]);
     let sw = Swarm { rng, next_uid: 0, n_keys, n_metas, ts_max, big_values: false };
     let plan = Plan { property: property.into(), profile: profile.into(), seed, store, sched, sessions: vec![], faults: vec![], check_each_step: true, n_keys, n_metas, expect: None };
